@@ -189,10 +189,64 @@ def run_cvc5(smt2, timeout_ms):
         os.unlink(path)
 
 
-def discharge(report, timeout_ms=10000, use_cvc5=True):
+def discharge(report, timeout_ms=10000, use_cvc5=True, cores=None, record=None):
+    """cores: {obligation key: [indices of the hypotheses that sufficed last time]}: tried first (any subset of the hypotheses is a
+    sound set of premises; if it does not suffice any more the full query is run).  record: dict filled with fresh cores."""
+    seen = {}
+    misses = 0
     for ob in report.obligations:
-        check(ob, report.facts, timeout_ms, use_cvc5)
+        n = seen.get(ob.oid, 0)
+        seen[ob.oid] = n + 1
+        key = f"{ob.oid}#{n}"
+        hint = (cores or {}).get(key) if misses < 4 else None     # a core file that stopped matching is abandoned quickly
+        done = False
+        if hint is not None and all(isinstance(i, int) and 0 <= i < len(ob.hyps) for i in hint):
+            full = ob.hyps
+            ob.hyps = [full[i] for i in hint]
+            try:
+                st = _check(ob, report.facts, min(timeout_ms, 4000), False, (), refute=False)
+            finally:
+                ob.hyps = full
+            if st == "unsat":
+                ob.backend += " (premises replayed from the recorded proof core)"
+                done = True
+            else:
+                ob.status, ob.model = None, None
+                misses += 1
+        if not done:
+            check(ob, report.facts, timeout_ms, use_cvc5)
+        if record is not None and ob.status == "unsat":
+            core = hint if done else unsat_core_indices(ob, report.facts, timeout_ms)
+            if core is not None:
+                record[key] = core
     return report
+
+
+def unsat_core_indices(ob, facts, timeout_ms):
+    """indices of hypotheses in one unsat core of (hyps, not goal); None if the core query does not finish"""
+    try:
+        if z3.is_true(z3.simplify(ob.goal)):
+            return []
+    except z3.Z3Exception:
+        pass
+    s = z3.Solver()
+    s.set("timeout", max(timeout_ms, 20000))
+    s.set("unsat_core", True)
+    if facts is not None:
+        for f in facts.items:
+            s.add(f)
+        for f in frac_lemmas(facts):
+            s.add(f)
+    tags = []
+    for i, h in enumerate(ob.hyps):
+        p = z3.Bool(f"_hyp{i}")
+        tags.append(p)
+        s.assert_and_track(h, p)
+    s.add(z3.Not(ob.goal))
+    if s.check() != z3.unsat:
+        return None
+    names = {str(c) for c in s.unsat_core()}
+    return [i for i, p in enumerate(tags) if str(p) in names]
 
 
 # ---------------------------------------------------------------------------------------------
